@@ -145,6 +145,8 @@ def _nearest(V):
         V.ensure("post/returns-the-indices-within-the-cut-off", z3.BoolVal(len(wheres) == 1 and len(wheres[0]) == 1 and isinstance(out.value, Opaque) and out.value.head == "obj:where1"))
         V.ensure("post/approximation-factor-is-the-caller's-eps", z3.BoolVal(all(q[2].get("eps") is eps for q in queries)))
     else:
+        # the *closest* atom is asked for: an approximate search (eps > 0) may name another atom or none at all
+        V.ensure("post/exact-nearest-neighbour-search-(no-approximation-factor)", z3.BoolVal(all(q[2].get("eps", 0) in (0, 0.0) and q[2].get("k", 1) == 1 for q in queries)))
         V.ensure("post/elsewhere-minus-one", z3.BoolVal(len(wheres) == nq and all(len(w_) == 3 and w_[2] == -1 for w_ in wheres)))
         V.ensure("post/inside-the-cut-off-the-tree's-index", z3.BoolVal(len(wheres) == nq and all(len(w_) == 3 and isinstance(w_[1], Opaque) and w_[1].head == f"obj:ii{j + 1}" for j, w_ in enumerate(wheres))))
         if kind == "geometry":
